@@ -28,7 +28,7 @@ RULE = ("Constructor inputs as plain data x one global duration setting (readout
         "constructors, at least one QEC cycle; distinct = distinct canonical JSON of the case.")
 ASSUMPTIONS = [
     "times are the reported start_time / end_time of every operation in circuit.operations, read inside the same temporary_override_get_registry_at block the circuit was built in; durations never change after construction",
-    "the two process-wide start-time memos are cleared after the last structural change (construction / apply_modifiers) and before the first time is read: apply_modifiers itself leaves stale entries behind (known defect of C03/C06, DESIGN S1/S5) which otherwise show up here as overlaps of unrolled circuits with >= 5 cycles; C10 is judged on the schedule the final structure defines",
+    "times are read exactly as a user would read them (no memo is cleared between construction / apply_modifiers() and the first read; the stale-memo defect that used to disturb this is repaired, fix fd00686)",
     "channel matching is the rule of the property (same qubit and same channel or one side ALL), evaluated on (id, channel name) pairs; a multi-channel operation matches if any of its identifiers does",
     "a Barrier is any instance of structure.circuit_operations.Barrier (this includes the zero-length CoordinateShiftOperation); its qubits are its qubit_indices",
     "tolerance 1e-9 on dyadic durations; zero-length operations (virtual phases, detectors, observables) never count as occupying a channel",
@@ -185,7 +185,6 @@ def _body(case, ctx):
                 circuit = build(case)
                 if variant == "unrolled":
                     circuit = circuit.apply_modifiers()
-                env.clear_time_caches()          # see ASSUMPTIONS: judge the schedule of the final structure
                 rows = read_schedule(circuit)
         if rows is None:
             continue
